@@ -271,7 +271,25 @@ void lemma_mutex_no_lost_waiter(void) {
   VF_P((waiter_in_inbox && G.lin_count == 1) ==> (TOOK && !RELEASED), "lemma: with a waiter in the inbox the only step unlock can make on the lock word is take-all (the waiter moves to the holder's batch)");
   VF_P((had_pending || waiter_in_inbox) ==> !RELEASED, "lemma: the mutex is never released while a waiter is pending or in the inbox (no lost wake-up)");
   VF_P(!RELEASED ==> G.resumed == 1, "lemma: an unlock that does not release hands the lock to exactly one waiter");
-  /* a lock attempt racing with the release: it linearises before the release CAS (then RELEASED's premise o == NULL is false and
-   * unlock takes it) or after it (then it sees the sentinel and ACQUIRES) */
-  VF_P(RELEASED ==> G.lin_new == MINACT, "lemma: after a release the next lock attempt sees the sentinel and acquires (enqueue_or_mark_active contract)");
+}
+/* a lock attempt (try_enqueue of waiter IT, summarised by the enqueue_or_mark_active contract) racing with the holder's
+ * unlock (summarised by unlock's contract, pendingQueue_ empty): in either order the waiter is not lost */
+void lemma_mutex_race_with_release(void) {
+  void* s0 = lemma_pick();
+  __CPROVER_assume(s0 != MINACT && s0 != (void*)&IT);                                   /* the mutex is held; IT is not queued yet */
+  _Bool lock_first = VF_nondet_bool();
+  void* s1 = lemma_pick(); void* s2 = lemma_pick();
+  IT.next_ = VF_nondet_bool() ? (struct item*)(lock_first ? s0 : s1) : NULL;
+#define LOCK_STEP(o, n)   ((o) == MINACT ? AQ_STEP_MARK_ACTIVE(MQ, o, n) : AQ_STEP_PUSH(MQ, o, n, &IT, IT.next_))   /* AQ_ENS_EOMA: sentinel -> acquires; otherwise pushes */
+#define UNLOCK_STEP(o, n) (AQ_STEP_MARK_INACTIVE(MQ, o, n) || AQ_STEP_TAKE_ALL(MQ, o, n))                          /* AQ_ENS_TMIODA: releases over an empty inbox, or takes everything */
+  __CPROVER_assume(lock_first ? (LOCK_STEP(s0, s1) && UNLOCK_STEP(s1, s2)) : (UNLOCK_STEP(s0, s1) && LOCK_STEP(s1, s2)));
+  VF_CANARY("lemma premises satisfiable");
+  if (lock_first) {
+    VF_P(s1 == (void*)&IT && IT.next_ == (struct item*)s0, "lemma: a lock attempt that precedes the release is queued in front of the previous inbox");
+    VF_P(!AQ_STEP_MARK_INACTIVE(MQ, s1, s2), "lemma: ... then the release CAS (NULL -> sentinel) cannot succeed");
+    VF_P(AQ_STEP_TAKE_ALL(MQ, s1, s2) && s1 == (void*)&IT, "lemma: ... and unlock takes the whole inbox, whose head is that waiter: it is in the batch the holder serves next");
+  } else {
+    VF_P(AQ_STEP_MARK_INACTIVE(MQ, s0, s1) ==> (AQ_STEP_MARK_ACTIVE(MQ, s1, s2) && s2 == NULL), "lemma: a lock attempt that follows the release sees the sentinel and ACQUIRES (it is never queued behind an unlocked mutex)");
+    VF_P(AQ_STEP_TAKE_ALL(MQ, s0, s1) ==> (s2 == (void*)&IT && IT.next_ == NULL), "lemma: a lock attempt that follows a take-all is queued behind the still-locked mutex (served by a later unlock)");
+  }
 }
